@@ -187,7 +187,7 @@ impl ConverterBuilder {
         let best = enum_map! {
             q =>  {
                 if let Some(best_units) = &self.best_units[q] {
-                    BestConversionsStore::new(best_units, &self.unit_index, &self.all_units)?
+                    BestConversionsStore::new(best_units, q, &self.unit_index, &self.all_units)?
                 } else {
                     return Err(ConverterBuilderError::EmptyBest { reason: "no best units given", quantity: q })
                 }
@@ -229,16 +229,17 @@ impl ConverterBuilder {
 impl BestConversionsStore {
     fn new(
         best_units: &BestUnits,
+        quantity: PhysicalQuantity,
         unit_index: &UnitIndex,
         all_units: &[UnitBuilder],
     ) -> Result<Self, ConverterBuilderError> {
         let v = match best_units {
             BestUnits::Unified(names) => {
-                Self::Unified(BestConversions::new(names, unit_index, all_units)?)
+                Self::Unified(BestConversions::new(names, quantity, unit_index, all_units)?)
             }
             BestUnits::BySystem { metric, imperial } => Self::BySystem {
-                metric: BestConversions::new(metric, unit_index, all_units)?,
-                imperial: BestConversions::new(imperial, unit_index, all_units)?,
+                metric: BestConversions::new(metric, quantity, unit_index, all_units)?,
+                imperial: BestConversions::new(imperial, quantity, unit_index, all_units)?,
             },
         };
         Ok(v)
@@ -248,9 +249,23 @@ impl BestConversionsStore {
 impl BestConversions {
     fn new(
         units: &[String],
+        quantity: PhysicalQuantity,
         unit_index: &UnitIndex,
         all_units: &[UnitBuilder],
     ) -> Result<Self, ConverterBuilderError> {
+        // all of them have to belong to the quantity of the list, they are
+        // going to be converted between each other
+        for name in units {
+            let found = all_units[unit_index.get_unit_id(name)?].physical_quantity;
+            if found != quantity {
+                return Err(ConverterBuilderError::BestUnitWrongQuantity {
+                    unit: name.clone(),
+                    expected: quantity,
+                    found,
+                });
+            }
+        }
+
         let mut units = units
             .iter()
             .map(|n| unit_index.get_unit_id(n))
@@ -562,6 +577,13 @@ pub enum ConverterBuilderError {
     EmptyBest {
         reason: &'static str,
         quantity: PhysicalQuantity,
+    },
+
+    #[error("Best unit '{unit}' for '{expected}' is a '{found}' unit")]
+    BestUnitWrongQuantity {
+        unit: String,
+        expected: PhysicalQuantity,
+        found: PhysicalQuantity,
     },
 
     #[error("No SI prefixes found when expandind SI on a unit")]
